@@ -303,6 +303,15 @@ func c17R1(c *Ctx, r *Report) {
 				}
 			}
 		})
+		// the next hash may be case-normalised first: strings.ToUpper(rr.NextDomain) plays the same role
+		if nextHash != nil {
+			for _, ref := range *nextHash.Referrers() {
+				if call, ok := ref.(*ssa.Call); ok && (calleeNameSSA(&call.Call) == "strings.ToUpper" || calleeNameSSA(&call.Call) == "strings.ToLower") && call.Call.Args[0] == nextHash {
+					role[call] = 2
+					nextHash = call
+				}
+			}
+		}
 		if nameHash == nil || ownerHash == nil || (nextHash == nil && spec.fn == "NSEC3.Cover") {
 			r.undecided(spec.rule, spec.fn, c.pos(fn.Pos()), "cannot identify the hash operands (name=%v owner=%v next=%v)", nameHash != nil, ownerHash != nil, nextHash != nil)
 			continue
